@@ -200,6 +200,9 @@ def run_fill(F, df, system, explorer=None, **kw):
             return F.fill_cij(df.copy(), system, **kw)
 
     ex = explorer or X.Explorer(max_paths=64, name="fill:" + str(system))
+    # tables in general position: a magnitude test |x| > tol on a not identically zero entry is one (cut) decision, not a sign split
+    # followed by a comparison; undecided exact equalities are 'not equal'
+    ex.generic_eq = True
     paths = ex.run(fn)
     return paths, proxy, ex
 
@@ -210,4 +213,7 @@ def no_drop_cut(cond):
     within drop_atol of zero are outside that obligation).  Any other comparison forks normally."""
     if cond[0] in ("and", "or"):
         return False
+    pref = X.tiny_magnitude_pref(cond)      # the same test written as a one-sided magnitude guard |x| > tol
+    if pref is not None:
+        return pref
     return None
